@@ -216,6 +216,16 @@ def run_item(item, tier):
         for text in ('', '\n', '\n\n\n', ' ', '//', '// only a comment', 'empty @is_you() { }', 'empty @is_you() { }\r\n', '\r\nempty @is_you() { }\r\n',
                      'empty @is_you() {\r\n write(1);\r\n}', '﻿empty @is_you() { }', 'empty @is_you() { } //', 'empty @is_you() { }\x1a'):
             check_text(st, text, 'file-shape case')
+        # arrays with constant lengths (global and local, used and unused): negative, zero, huge, wrapping
+        lens = ['-32769', '-32768', '-3', '-1', '0 - 1', '2 - 6', '0', '1', '2', '32767', '32768', '40000', '65535', '65536', '65537', '2147483648', 'N', 'N * 2']
+        for el in ('int', 'byte', 'bool', 'string'):
+            for ln in lens:
+                for W in (2, 4):
+                    pre = 'const int N = 2 - 6;\n'
+                    check_text(st, pre + f'{el} a[{ln}];\nempty @is_you() {{ write(a.length); }}', f'global {el} array of length {ln} (used)', W=W)
+                    check_text(st, pre + f'{el} a[{ln}];\nempty @is_you() {{ }}', f'global {el} array of length {ln} (unused)', W=W)
+                    check_text(st, pre + f'empty @is_you() {{ {el} a[{ln}]; write(a.length); }}', f'local {el} array of length {ln}', W=W)
+                    check_text(st, pre + f'{el}[] a = [];\n{el} b[{ln}];\nempty @is_you() {{ write(a.length + b.length); }}', f'global {el} arrays, empty literal + length {ln}', W=W)
         for W in (2, 3, 8, 16, 64):
             for S in (0, 1, 2, 500, 10 ** 6, 10 ** 9, 10 ** 30):
                 for text in MINI:
@@ -385,6 +395,7 @@ def coverage(total, tier):
             'double_edits': 'all pairs of deletions and ' + ('all' if tier == 'thorough' else 'a third of') + ' replace+delete pairs on 3 compact seeds',
             'token_strings': f'all strings of <= {4 if tier == "thorough" else 3} tokens over {len(SMALL_ALPHABET)} tokens',
             'character_strings': f'all strings of <= 3 characters over {len(CHARS)} characters, at top level and inside a function body',
+            'constant array lengths': 'global (used/unused) and local arrays of every element type with 18 constant length expressions from -32769 to 2^31 and const-variable lengths, W 2,4',
             'literals': 'integer literals of 1..39, 100, 1000, 4299..4301, 5000 digits in every base; \\u{..} with 1..20 digits; each of the 256 first code points raw '
                         'in a string, at top level and in a comment; empty/CRLF/BOM/no-newline files; word sizes {0,1,-1,2,3,8,16,64} x stack sizes {-500,-1,0,1,2,500,1e6,1e9,1e30}',
             'cli': f'{len(cli_grid(tier))} invocations: 8 programs (ok, lex/parse/type/codegen errors, lint) x -m {{-8,0,8,12,16,24,64}} x -s {{-1,0,1,500,1e9}} x '
